@@ -4,6 +4,8 @@ import Ivg.Gen.Tie.RendererFields
 import Ivg.Gen.Tie.Code.Transform
 import Ivg.Gen.Tie.Code.RenderRegs
 import Ivg.Gen.Tie.Code.Retarget
+import Ivg.Gen.Tie.Code.Arc
+import Ivg.Gen.Tie.Code.Math
 import Ivg.Obligations
 /-!
 # C06 — elliptical arcs (PARTIAL)
@@ -220,4 +222,17 @@ end Ivg.Props.C06
   -- regenerated code (translator): SetRasterizer recomputes the transform from the current viewBox and the new rectangle
   Ivg.Gen.Tie.rectangle_Empty_code_tie,
   Ivg.Gen.Tie.renderer_SetRasterizer_code_tie,
-  Ivg.Gen.Tie.renderer_SetRasterizer_code_tie_frame]
+  Ivg.Gen.Tie.renderer_SetRasterizer_code_tie_frame,
+  -- regenerated code (translator) = model, for all inputs: the WHOLE arc routine (Renderer.AbsArcTo/RelArcTo with its closures and segment loop) = arcF32, and Go's math.Sin/Cos/Acos as translated from the Go standard library's source = the model's port (GoMath), on the whole double range
+  Ivg.Gen.Tie.absArcTo_code_tie,
+  Ivg.Gen.Tie.relArcTo_code_tie,
+  Ivg.Gen.Tie.sin_code_tie,
+  Ivg.Gen.Tie.cos_code_tie,
+  Ivg.Gen.Tie.acos_code_tie,
+  Ivg.Gen.Tie.asin_code_tie,
+  Ivg.Gen.Tie.trigReduce_code_tie,
+  Ivg.Gen.Tie.mul64_code_tie,
+  Ivg.Gen.Tie.add64_code_tie,
+  Ivg.Gen.Tie.len64_code_tie,
+  Ivg.Gen.Tie.mPi4_code_tie,
+  Ivg.Gen.Tie.absArcTo_angle_code_tie]
